@@ -20,6 +20,10 @@ func init() {
 }
 
 func runC16(p *Prog, r *Report) {
+	if want("C16.8") {
+		// every added key is recorded for the next filter
+		ruleFilterAddRecordsEveryKey(p, r, "C16.8")
+	}
 	if want("C16.1") {
 		r.Begin("C16.1", "E-SIB", "wrapper agreement: iFilterGenerator.Add and iFilter.Contains both hand internalKey(key).ukey() to the wrapped policy; session.setOptions wraps Filter and every AltFilters element", 4)
 		for _, spec := range []struct {
